@@ -90,6 +90,7 @@ type Frame struct {
 	// range-over-map iteration state: Range instr -> (keys array, n, pos)
 	iters     map[ssa.Value]*iterState
 	panicking bool
+	recovered bool // a deferred call has recovered this frame's panic: run the remaining defers, then return through the Recover block
 	seq       *seqCalls // statically known closures being run "concurrently" (PerformConcurrently)
 }
 
